@@ -126,6 +126,26 @@ pub fn sched(label: &str) {
     }
 }
 
+/// With `RCE_VERIF_TRACE` set: one stderr line with the limits a search actually runs under (whoever built them:
+/// the `go` arm, the bench, a test), so that "this search has no time limit" can be observed rather than assumed
+pub fn trace_limits(s: &Search, max_depth: Option<Depth>) {
+    if std::env::var_os("RCE_VERIF_TRACE").is_some() {
+        let f = |v: Option<u128>| v.map_or("-".to_string(), |x| x.to_string());
+        eprintln!(
+            "limits maxdepth={} depth={} nodes={} movetime={} wtime={} btime={} winc={} binc={} timer={}",
+            max_depth.map_or("-".to_string(), |d| d.to_string()),
+            s.limits.depth.map_or("-".to_string(), |d| d.to_string()),
+            s.limits.nodes.map_or("-".to_string(), |d| d.to_string()),
+            f(s.limits.movetime),
+            f(s.limits.white_time),
+            f(s.limits.black_time),
+            f(s.limits.white_increment),
+            f(s.limits.black_increment),
+            f(s.limits.time_management_timer),
+        );
+    }
+}
+
 pub fn best_move(s: &Search) -> Option<Ply> {
     s.info.best_move
 }
